@@ -109,7 +109,7 @@ PROPS["C09"] = {
     "level_note": "Reductions R1/R2 (a stop between two atomics of one critical section is not explored); bounded windows as listed.",
 }
 PROPS["C08"] = {
-    "groups": [{"run": "^vpH_C08_T_|^vpH_C01_T_stop_delete$|^vpH_C09_T_stop_after_cancel$|^vpH_C07_T_leftover_takeover$"}],
+    "groups": [{"run": "^vpH_C08_T_|^vpH_C01_T_stop_delete$|^vpH_C09_T_stop_after_cancel$|^vpH_C07_T_leftover_takeover$|^vpH_C11_T_stop_vs_expiry$"}],
     "bounds": {"quick": "one real instance, H=1s, elected directly or through the follower path (watcher running), promotion callback returning at once or blocking on its context; first term ended by each cause: record replaced (heartbeat conflict), record deleted, three failing refreshes, record taken by a later incarnation while refreshes hang (periodic validation), health threshold, preemption observed through the watcher before the next heartbeat, Stop, StopWithContext{WaitForDemote}, StopWithContext{DeleteKey,WaitForDemote}; then (unless stopped) the blocking record is removed, the instance leads a second term through the real follower path and is stopped; heartbeat and validation tickers coinciding (two causes in one tick); audits at every quiescent point"},
     "outside": "connection-loss and reconnect-verification demotions (C11 harnesses); more than two terms; callbacks that never return without cancellation",
     "assumptions": ["leadership edges are observed inside the Metrics.SetIsLeader callback, i.e. at the flag change itself"],
